@@ -90,6 +90,14 @@ def cases(tier, seed):
                 out.append({"name": "handover.nested/%s/%s/%d" % (">".join(layers), stage, part), "kind": "nested", "layers": layers,
                             "stage": stage, "cap_a": None if full else 12, "cap_b": None if full else 10,
                             "budget": None if full else 120, "slice": [part, parts]})
+    for form in ("executor", "f_flat_map", "f_flat_map_error_fn", "executor>map", "executor>retry", "f_map", "with_map"):
+        for who in ("same-thread", "other-thread"):
+            for inp in ("value", "exc"):
+                if inp == "exc" and form != "f_flat_map_error_fn":
+                    continue
+                if inp == "value" and form == "f_flat_map_error_fn":
+                    continue
+                out.append({"name": "fn.cancel/%s/%s/%s" % (form, who, inp), "kind": "fncancel", "form": form, "who": who, "inp": inp})
     for comb in ["zip", "and", "or", "sequence", "traverse", "apply", "map", "flat_map", "flat_map_inner", "proxy", "timeout", "nocancel",
                  "zip_nocancel", "or_nocancel"]:
         out.append({"name": "comb.cancel/%s" % comb, "kind": "comb", "comb": comb})
@@ -510,11 +518,15 @@ class NScenario(object):
 def run_comb(case, res):
     F = instr.ME.futures
     comb = case["comb"]
-    for n_done in (0, 1):
+    for n_done, in_state in ((0, "pending"), (1, "pending"), (0, "running"), (1, "running"), (0, "mixed")):
         begin("vt")
         ctx = Ctx()
         try:
             ins = [SpyFuture("in%d" % i) for i in range(3)]
+            # inputs whose work has already started (cancel() on them answers False) must still be asked
+            for i, f in enumerate(ins):
+                if in_state == "running" or (in_state == "mixed" and i % 2 == 0):
+                    f.set_running_or_notify_cancel()
             shielded = []
             expect = list(ins)
             if comb == "zip":
@@ -582,15 +594,120 @@ def run_comb(case, res):
                     res.violation("nocancel-leak/%s" % comb, "f_%s: cancel() reached %s through f_nocancel" % (comb, f.tag))
             if comb == "nocancel" and r is not False:
                 res.violation("nocancel-returned/%r" % (r,), "f_nocancel(f).cancel() returned %r" % (r,))
-            res.key("comb", comb, n_done)
-            res.sample({"combinator": comb, "inputs_done_before": n_done, "cancel_returned": r,
+            res.key("comb", comb, n_done, in_state)
+            res.sample({"combinator": comb, "inputs_done_before": n_done, "inputs_state": in_state, "cancel_returned": r,
                         "cancel_calls_per_input": {f.tag: len(f.cancel_calls) for f in ins}}, limit=1)
+        finally:
+            end(ctx)
+
+
+def run_fncancel(case, res):
+    """cancel() arrives while the user's (flat-)map function is executing: the input is finished, the inner
+    future does not exist yet.  Whatever cancel() answers has to be kept: True -> the output stays cancelled and
+    the inner future the function then hands back is asked to cancel; False -> the output completes with the
+    inner future's outcome."""
+    ME = instr.ME
+    F = ME.futures
+    form, who = case["form"], case["who"]
+    for inner_end in ("value", "exc"):
+        begin("vt")
+        ctx = Ctx()
+        try:
+            inner = SpyFuture("inner")
+            st = {"ret": None, "out": None}
+            flat = "flat" in form or form.startswith("executor")
+
+            def do_cancel():
+                st["ret"] = call("cancel", st["out"].cancel, _tag="out")
+
+            def fn(idx, x):
+                if who == "same-thread":
+                    do_cancel()
+                else:
+                    a = ctx.actor("C", do_cancel).go()
+                    harness.wait_done_or_blocked(a)
+                return inner if flat else ("mapped", x)
+
+            rfn = Recorded("fn", fn)
+            me = ManualExecutor("me")
+            ctx.own(me)
+            if form.startswith("executor") or form == "with_map":
+                ex = ctx.own((ME.Executors.with_flat_map if flat else ME.Executors.with_map)(me, rfn))
+                top = ex
+                if form.endswith(">map"):
+                    top = ctx.own(ME.Executors.with_map(ex, lambda v: ("top", v)))
+                elif form.endswith(">retry"):
+                    top = ctx.own(ME.Executors.with_retry(ex, max_attempts=3, sleep=0.25, max_sleep=0.25))
+                st["out"] = top.submit(Recorded("job", lambda idx: ("v", 0)))
+                instr.advance(0.01)
+                src_done = lambda: me.complete(me.pending()[0], ("v", 0))
+            else:
+                src = SpyFuture("src")
+                if form == "f_flat_map":
+                    st["out"] = F.f_flat_map(src, rfn)
+                    src_done = lambda: src.set_result(("v", 0))
+                elif form == "f_flat_map_error_fn":
+                    st["out"] = F.f_flat_map(src, lambda v: F.f_return(v), error_fn=rfn)
+                    src_done = lambda: src.set_exception(UserErrorA("in"))
+                else:
+                    st["out"] = F.f_map(src, rfn)
+                    src_done = lambda: src.set_result(("v", 0))
+            out = st["out"]
+            a = ctx.actor("W", src_done).go()
+            if drive([a] + [x for x in ctx.actors if x is not a]) != "ok" and not LM.deadlocks:
+                raise Inconclusive("completion did not return: " + instr.describe_threads())
+            instr.advance(D)
+            res.execs += 1
+            check_common(res)
+            if LM.deadlocks:
+                continue
+            if len(rfn.calls) != 1:
+                res.inconclusive.append("fn.cancel: the function ran %d times" % len(rfn.calls))
+                continue
+            r = st["ret"]
+            label = "fn.cancel/%s/%s" % (form, who)
+            if r is True:
+                res.count("fncancel.true")
+                if not out.cancelled():
+                    res.violation("cancel-true-not-cancelled/fn-running/" + form,
+                                  "%s: cancel() during the function returned True but the future is %s" % (label, outcome_repr(outcome(out))))
+                if flat and not inner.cancel_calls:
+                    res.violation("cancel-true-inner-work-left/fn-running/" + form,
+                                  "%s: cancel() during the flat-map function returned True, the function then returned its inner "
+                                  "future, which was never asked to cancel: inner work keeps running for a cancelled future" % label)
+            elif r is False:
+                res.count("fncancel.false")
+                if flat:
+                    if inner.cancel_calls:
+                        pass  # a later forwarded request is fine
+                    if inner_end == "value":
+                        inner.set_result(("inner", 1))
+                    else:
+                        inner.set_exception(UserErrorA("inner"))
+                    instr.advance(D)
+                    if form.endswith(">retry") and inner_end == "exc":
+                        # cancel() was called on the retry future: no further attempt
+                        instr.advance(1.0)
+                        if len(me.items) > 1:
+                            res.violation("retry-after-cancel/fn-running", "%s: cancel() returned False during the function; the attempt "
+                                          "then failed and was re-submitted (%d submissions)" % (label, len(me.items)))
+                o = outcome(out)
+                if o[0] in ("pending", "cancelled"):
+                    res.violation("cancel-false-%s/fn-running/%s" % (o[0], form),
+                                  "%s: cancel() during the function returned False but the future ended %s" % (label, outcome_repr(o)))
+            else:
+                res.inconclusive.append("fn.cancel: cancel() did not return a bool: %r" % (r,))
+            res.key("fncancel", form, who, case["inp"], inner_end, r)
+            res.sample({"form": form, "cancel_from": who, "cancel_returned": r, "inner_cancel_calls": len(inner.cancel_calls),
+                        "outcome": outcome_repr(outcome(out))}, limit=1)
         finally:
             end(ctx)
 
 
 def run_case(case, res):
     k = case["kind"]
+    if k == "fncancel":
+        return run_fncancel(case, res)
     rng = random.Random("c06/%s/%s" % (case["seed"], case["name"]))
     if k == "point":
         run_point(case, res)
